@@ -39,6 +39,7 @@ def frame():
     df["e0"] = ["b", "", "a", "", "b", "a", "b", ""]
     df["inc"] = [250000.0, 250000.5, 250001.0, 250000.5, 0.0001, 0.0, 250001.0, 0.0]  # distinct values that are "close"
     df["cu"] = pd.Categorical(df["f"], categories=["a", "d", "b", "c"])  # 'd' is declared but never occurs
+    df["tb"] = ["a ", "a", "b", "a ", "b", "a", " a", "b"]  # values that differ only in surrounding blanks
     df["fu"] = pd.Categorical(df["f"], categories=["c", "a", "b"])  # not ordered, categories stored in another order than sorted
     return df
 
@@ -53,7 +54,7 @@ def cases():
     out.append({"k": "binary-absent", "col": "cu", "s": "d"})
     out.append({"k": "binary-absent", "col": "o", "s": "zz"})
     out.append({"k": "binary-absent", "col": "inc", "s": 250000.25})
-    for col in ("f", "k", "m", "xf", "o", "g", "cu", "inc"):
+    for col in ("f", "k", "m", "xf", "o", "g", "cu", "inc", "tb"):
         vals = sorted(set(df[col].tolist()))
         for s in vals:
             for fn in ("binary", "B"):
@@ -64,6 +65,13 @@ def cases():
         out.append({"k": "binary-ns", "col": col, "s": vals[-1]})
     for e, kind in (("z", "col"), ("3", "const"), ("2.5", "const"), ("np.log(z)", "expr"), ("z * 2 + 1", "expr"), ("-z", "expr"), ("z / x", "expr"), ("k", "col"), ("1 / z", "expr"), ("10 - z", "expr"), ("2 ** x", "expr")):
         out.append({"k": "offset", "e": e, "kind": kind})
+    # the data argument itself passed by keyword
+    out.append({"k": "kwdata", "arg": "binary(x=f, success='a')", "col": "f", "eq": "a"})
+    out.append({"k": "kwdata", "arg": "B(x=f)", "col": "f", "eq": "a"})
+    out.append({"k": "kwdata", "arg": "B(success=20, x=k)", "col": "k", "eq": 20})
+    out.append({"k": "kwdata", "arg": "offset(x=z)", "col": "z", "eq": None})
+    out.append({"k": "kwdata", "arg": "I(x=z)", "col": "z", "eq": None})
+    out.append({"k": "kwdata", "arg": "binary(x=e0, success='')", "col": "e0", "eq": ""})
     for fn in ("prop", "p", "proportion"):
         for tr in ("n", "9", "n + 1", "trials=n", "trials=9", "n * 2"):
             out.append({"k": "prop", "fn": fn, "tr": tr})
@@ -191,6 +199,21 @@ def check_case(case, acc):
                 problems.append(("binary-training", "values", f"{arg} with sv={case['s']!r}: wrong column"))
         except Exception as e:
             problems.append(("binary-training", exc_sig(e), f"{arg} raised {type(e).__name__}: {e}"))
+    elif k == "kwdata":
+        arg, col, eq = case["arg"], case["col"], case["eq"]
+
+        def val(d):
+            return d[col].to_numpy(dtype=float) if eq is None else (d[col] == eq).to_numpy(dtype=float)
+
+        acc.calls += 1
+        try:
+            dm = build(f"y ~ x + {arg}", df)
+            got = np.asarray(dm.common[arg], dtype=float).reshape(-1)
+            if got.shape != (len(df),) or not np.array_equal(got, val(df)):
+                problems.append(("keyword-data-training", "values", f"{arg}: training column is not the pointwise value"))
+            col_on_new(dm, arg, val, "keyword-data-prediction")
+        except Exception as ex:
+            problems.append(("keyword-data-training", exc_sig(ex), f"{arg} raised {type(ex).__name__}: {ex}"))
     elif k == "offset":
         e = case["e"]
         arg = f"offset({e})"
